@@ -124,12 +124,15 @@ def analyse_C02(cases, rep):
                 rep.cov['evaluations'] += 1
                 if xi != xm: diffs.append(dict(op=op, arg=arg, impl=xi, model=xm))
                 continue
-            if op not in ('off', 'stride', 'strides', 'stridesarr'): continue
+            if op not in ('off', 'stride', 'strides', 'stridesarr', 'cvs'): continue
             rep.cov['evaluations'] += 1
             if xi != xm: diffs.append(dict(op=op, arg=arg, impl=xi, model=xm))
             if c.adm and len(c.ext) >= 1 and xi not in ('ok 0', 'no-op'): rep.nontrivial(c.base() + ' ' + op + ' ' + str(arg))
             if not c.adm: continue
             # oracle: the specified formula, computed from the property statement
+            if op == 'cvs':
+                if xi != 'no-op' and F.vals(xi) != sp: rep.violation(payload(c, kind='strides-of-the-mapping-converted-to-another-extents-type-differ-from-S_r', impl=xi, specified=sp)); break
+                continue
             if op in ('strides', 'stridesarr') and xi != 'no-op':
                 got = F.vals(xi)
                 if got != sp: rep.violation(payload(c, kind='strides-differ-from-specified-S_r', op=op, impl=xi, specified=sp)); break
